@@ -79,9 +79,37 @@ def oracle(p):
     return bad
 
 
+def scenarios(run):
+    """INITIAL_WINDOW_SIZE changes reaching streams in every state the library can then send DATA from: reserved by a push and
+    activated later, open, half-closed (remote); the window, a send of exactly the window, one byte more."""
+    out = []
+    RX = lambda *fs: ('Receive', [(f, None, {}) for f in fs])
+    H = lambda sid, hs, es=False: ('SendHeaders', sid, hs, 0, es, None, None, None)
+    for seq in ((100,), (0, 100), (100, 70000, 50), (70000, 100)):
+        tail = []
+        for v in seq:
+            tail.append(RX(('Settings', False, [(4, v)])))
+        w = seq[-1]
+        # server: stream 1 open then answered, stream 2 / 4 reserved while the setting changes, 4 activated before the last change
+        ops = [('Initiate',), RX(('Settings', False, []), ('Headers', 1, False, None, ('Decoded', t2.REQ))),
+               ('PushStream', 1, 2, t2.REQ, 0), ('PushStream', 1, 4, t2.REQ, 0)] + tail[:-1] + [H(4, t2.RESP)] + tail[-1:] + \
+              [H(2, t2.RESP), H(1, t2.RESP)]
+        for sid in (2, 4, 1):
+            ops += [('LocalWindow', sid), ('SendData', sid, w + 1, False, None), ('SendData', sid, w, False, None),
+                    ('SendData', sid, 1, False, None), ('LocalWindow', sid)]
+        out.append((t2.default_cfg(False), ops))
+        # client: stream 1 open, stream 3 opened between the changes, padding counted
+        ops = [('Initiate',), H(1, t2.REQ)] + tail[:-1] + [H(3, t2.REQ)] + tail[-1:]
+        for sid in (1, 3):
+            ops += [('LocalWindow', sid), ('SendData', sid, max(w - 1, 0), False, 1), ('SendData', sid, max(w - 2, 0), False, 1),
+                    ('SendData', sid, 1, True, None), ('LocalWindow', sid)]
+        out.append((t2.default_cfg(True), ops))
+    return out
+
+
 SPEC = dict(
     parts=PARTS, weights=WEIGHTS, rf_weights=RF, n_quick=320, n_thorough=8000, n_ops=32,
-    oracle=oracle,
+    oracle=oracle, scenarios=scenarios,
     nontrivial=lambda p: any(fr[0] == 0 for fs in _conn.new_frames(p) for fr in fs),
     rule='programs generated by walking the implementation with a send_data / WINDOW_UPDATE / SETTINGS(INITIAL_WINDOW_SIZE) heavy profile '
          '(sizes drawn from the live window, window+-1, frame-size limit+-1, padding 0/1/255/out of range); every step compared with the Coq model on '
